@@ -183,3 +183,65 @@ Example chunkings_exist :
   stream_bytes [[1;2]; [62;3]]%N = stream_bytes [[1]; [2;62]; [3]]%N /\
   read_until 62 [[1;2]; [62;3]]%N = ([1;2;62]%N, [[3]]%N).
 Proof. repeat split; repeat constructor; discriminate. Qed.
+
+(* ================= round 3: the consumer that keeps asking after End =================
+   A well-formed file read through ANY chunking by a consumer that makes n > (number of records)
+   requests: exactly the written records, in order, then End at every further request -- nothing
+   resurfaces after End.  [jaspar_polls_e] etc. are the polling consumers of IoPoll.v over event
+   streams; [of_stream s] is the stream s without error events. *)
+From LMIo Require Import GenIoAbc IoParseProofs IoErr IoErrUProofs IoErrJBase IoErrJLift IoPoll IoPollProofs.
+
+Theorem reader_roundtrip_polls_jaspar : forall n caps prefix rs suffix s,
+  rs <> [] -> forallb wf_jaspar rs = true -> wf_prefix prefix = true -> wf_suffix suffix = true ->
+  wf_stream s -> stream_bytes s = print_file print_jaspar prefix rs suffix -> length rs < n ->
+  jaspar_polls_e n caps (of_stream s)
+  = map (fun p => Ok (Some (record_of Dna 0%N dec_value (snd p)))) rs ++ repeat (Ok None) (n - length rs).
+Proof.
+  intros n caps prefix rs suffix s Hne Hwf Hp Hs W E Hn.
+  pose proof (reader_roundtrip_jaspar caps prefix rs suffix s Hne Hwf Hp Hs W E) as R.
+  rewrite <- (jaspar_read_e_of_stream caps s W) in R.
+  rewrite <- (map_map (fun p => record_of Dna 0%N dec_value (snd p)) (fun r => Ok (Some r))) in R |- *.
+  rewrite <- (map_length (fun p => record_of Dna 0%N dec_value (snd p)) rs) in Hn |- *.
+  apply (j_polls_records_then_end (j_record false) pspec_j_record); try assumption.
+  - apply Nat.leb_le. reflexivity.
+  - apply wf_of_stream. exact W.
+Qed.
+
+Theorem reader_roundtrip_polls_jaspar16 : forall A n caps prefix rs suffix s,
+  wf_alphabet A ->
+  rs <> [] -> forallb (wf_jaspar16 A) rs = true -> wf_prefix prefix = true -> wf_suffix suffix = true ->
+  wf_stream s -> stream_bytes s = print_file print_jaspar16 prefix rs suffix -> length rs < n ->
+  jaspar16_polls_e A n caps (of_stream s)
+  = map (fun p => Ok (Some (record_of A 0%N dec_value (snd p)))) rs ++ repeat (Ok None) (n - length rs).
+Proof.
+  intros A n caps prefix rs suffix s HA Hne Hwf Hp Hs W E Hn.
+  pose proof (reader_roundtrip_jaspar16 A caps prefix rs suffix s HA Hne Hwf Hp Hs W E) as R.
+  rewrite <- (jaspar16_read_e_of_stream A caps s W) in R.
+  rewrite <- (map_map (fun p => record_of A 0%N dec_value (snd p)) (fun r => Ok (Some r))) in R |- *.
+  rewrite <- (map_length (fun p => record_of A 0%N dec_value (snd p)) rs) in Hn |- *.
+  apply (j_polls_records_then_end (j16_record A) (pspec_j16_record A (fun c k H => proj1 (HA c k H)))); try assumption.
+  - apply Nat.leb_le. reflexivity.
+  - apply wf_of_stream. exact W.
+Qed.
+
+Theorem reader_roundtrip_polls_uniprobe : forall A parse_f32 n prefix rs suffix s,
+  wf_alphabet A -> wf_blank_prefix prefix = true -> wf_suffix suffix = true ->
+  forallb (wf_uniprobe A parse_f32) rs = true ->
+  wf_stream s -> stream_bytes s = print_file print_uniprobe prefix rs suffix -> length rs < n ->
+  uniprobe_polls_e A parse_f32 n (of_stream s)
+  = map (fun p => Ok (Some (record_of A F32.zero (fvalue parse_f32) (snd p)))) rs ++ repeat (Ok None) (n - length rs).
+Proof.
+  intros A parse_f32 n prefix rs suffix s HA Hp Hs Hwf W E Hn.
+  pose proof (reader_roundtrip_uniprobe A parse_f32 prefix rs suffix s HA Hp Hs Hwf W E) as R.
+  rewrite <- (uniprobe_read_e_of_stream A parse_f32 s) in R.
+  rewrite <- (map_map (fun p => record_of A F32.zero (fvalue parse_f32) (snd p)) (fun r => Ok (Some r))) in R |- *.
+  rewrite <- (map_length (fun p => record_of A F32.zero (fvalue parse_f32) (snd p)) rs) in Hn |- *.
+  apply (uniprobe_polls_records_then_end A (fun c k H => proj1 (HA c k H)) parse_f32); try assumption.
+  apply wf_of_stream. exact W.
+Qed.
+
+Check reader_roundtrip_polls_jaspar : forall n caps prefix rs suffix s,
+  rs <> [] -> forallb wf_jaspar rs = true -> wf_prefix prefix = true -> wf_suffix suffix = true ->
+  wf_stream s -> stream_bytes s = print_file print_jaspar prefix rs suffix -> length rs < n ->
+  jaspar_polls_e n caps (of_stream s)
+  = map (fun p => Ok (Some (record_of Dna 0%N dec_value (snd p)))) rs ++ repeat (Ok None) (n - length rs).
